@@ -271,6 +271,13 @@ def _sound_memo_table(repo, E, cq: str, attr: str, tracked: set) -> tuple[bool, 
                 return False, f"{m}: augmented assignment to self.{attr}"
     if not n_bind:
         return False, "never bound to an empty dict"
+    # a class-level default may only be the "not created yet" marker None: any other class-level value
+    # would be one object shared by every instance
+    for st in repo.module(mod).classes[cname].body:
+        tg = st.targets if isinstance(st, ast.Assign) else [st.target] if isinstance(st, ast.AnnAssign) else []
+        if any(isinstance(t, ast.Name) and t.id == attr for t in tg):
+            if not (st.value is None or (isinstance(st.value, ast.Constant) and st.value.value is None)):
+                return False, f"class-level {attr} is bound to an object shared by all instances"
     n_store = 0
     for m, fn in meths.items():
         if m == "__init__":
@@ -289,21 +296,28 @@ def _sound_memo_table(repo, E, cq: str, attr: str, tracked: set) -> tuple[bool, 
             elif isinstance(st, ast.AugAssign) and isinstance(st.target, ast.Name):
                 assigns.setdefault(st.target.id, []).append(st.value)
 
-        def deps(expr, seen):
+        def deps(expr, seen, stop=frozenset()):
             names, attrs = set(), set()
             for n in ast.walk(expr):
                 if isinstance(n, ast.Attribute) and isinstance(n.value, ast.Name) and n.value.id == "self":
                     attrs.add(n.attr)
                 elif isinstance(n, ast.Name) and n.id != "self":
+                    if n.id in stop:
+                        names.add(n.id)  # a key component: the key carries this very value
+                        continue
                     if n.id in params:
                         names.add(n.id)
                     if n.id in assigns and n.id not in seen:
                         seen.add(n.id)
                         for v in assigns[n.id]:
-                            a, b = deps(v, seen)
+                            a, b = deps(v, seen, stop)
                             names |= a
                             attrs |= b
             return names, attrs
+
+        def single(name):
+            """bound exactly once in the function (a parameter never rebound, or one plain assignment)"""
+            return (name in params and name not in assigns) or (name not in params and len(assigns.get(name, [])) == 1)
 
         # locals that stand for the table: ``t = self.attr`` / ``t = self.attr = {}``
         table_names = set()
@@ -322,13 +336,17 @@ def _sound_memo_table(repo, E, cq: str, attr: str, tracked: set) -> tuple[bool, 
                     continue  # keyed read
                 if isinstance(par.ctx, ast.Store):
                     st = parents.get(par)
-                    if not (isinstance(st, ast.Assign) and len(st.targets) == 1):
+                    # ``self.attr[K] = V`` or the chained form ``v = self.attr[K] = V`` (other targets plain names)
+                    if not (isinstance(st, ast.Assign) and all(t is par or isinstance(t, ast.Name) for t in st.targets)):
                         return False, f"{m}: store to self.{attr}[..] that is not a plain assignment"
                     key = par.slice
+                    # a key held in a local bound once to a tuple stands for that tuple
+                    if isinstance(key, ast.Name) and key.id not in params and len(assigns.get(key.id, [])) == 1 and isinstance(assigns[key.id][0], ast.Tuple):
+                        key = assigns[key.id][0]
                     comps = key.elts if isinstance(key, ast.Tuple) else [key]
-                    key_names = {c.id for c in comps if isinstance(c, ast.Name)}
-                    # a key component may itself be a local that is a plain copy of a parameter
-                    vn, va = deps(st.value, set())
+                    # names bound exactly once: the value they have in the key is the value they have in V
+                    key_names = {c.id for c in comps if isinstance(c, ast.Name) and single(c.id)}
+                    vn, va = deps(st.value, set(), frozenset(key_names))
                     loose = {x for x in vn if x not in key_names}
                     if loose:
                         return False, f"{m}: the value stored under {norm(key)} depends on {sorted(loose)}, which the key does not carry unchanged"
@@ -340,6 +358,8 @@ def _sound_memo_table(repo, E, cq: str, attr: str, tracked: set) -> tuple[bool, 
                 return False, f"{m}: del self.{attr}[..]"
             if isinstance(par, ast.Compare) and n in par.comparators and all(isinstance(o, (ast.In, ast.NotIn)) for o in par.ops):
                 continue
+            if isinstance(par, ast.Compare) and par.left is n and len(par.ops) == 1 and isinstance(par.ops[0], (ast.Is, ast.IsNot)) and isinstance(par.comparators[0], ast.Constant) and par.comparators[0].value is None:
+                continue  # "not created yet" test of a lazily created table
             if isinstance(par, ast.Attribute) and par.attr == "get" and isinstance(parents.get(par), ast.Call):
                 continue
             return False, f"{m}: self.{attr} is used other than by key ({norm(par)[:60]})"
